@@ -248,5 +248,5 @@ ASSUMPTIONS = ["the summary's datetimes have one-second resolution; the model tr
 
 def main(tier):
     n = 1500 if tier == "quick" else 80000
-    cap = 300 if tier == "quick" else 7200
+    cap = 300 if tier == "quick" else 1500
     return engine.run_check(PROP, "c19", tier, n, cap, "exploration", RULE, ASSUMPTIONS)
